@@ -418,6 +418,19 @@ func c18ReadWrite(vm *VM, e [3]*c18Entry) {
 	} else {
 		verify(err != nil, "reader accepts 'a foo' although foo is not a postfix operator")
 	}
+	// associativity is that of the specifier in the table: a foo b foo c
+	if e[1] != nil && e[0] == nil && e[2] == nil {
+		c := NewAtom("c")
+		t, err = parse("a foo b foo c.")
+		switch {
+		case decide(e[1].spec == NewAtom("xfx")):
+			verify(err != nil, "reader accepts 'a foo b foo c' although foo is xfx (not associative)")
+		case decide(e[1].spec == NewAtom("yfx")):
+			verify(err == nil && decide(vIdenticalV(t, c18Foo.Apply(c18Foo.Apply(a, b), c))), "reader does not read 'a foo b foo c' as (a foo b) foo c for yfx")
+		case decide(e[1].spec == NewAtom("xfy")):
+			verify(err == nil && decide(vIdenticalV(t, c18Foo.Apply(a, c18Foo.Apply(b, c)))), "reader does not read 'a foo b foo c' as a foo (b foo c) for xfy")
+		}
+	}
 	// writer: foo(a, b) is written in operator notation iff foo is infix
 	var buf bytes.Buffer
 	s := NewOutputTextStream(&buf)
